@@ -94,6 +94,8 @@ def join_val(a, b):
         return TOP
     if a == b:
         return a
+    if _is_num(a) and _is_num(b) and a.v == b.v:
+        return a if isinstance(a.v, float) else b
     sa_, sb_ = sign_of(a), sign_of(b)
     if "?" not in (sa_, sb_) and (isinstance(a, Sgn) or isinstance(b, Sgn) or (_is_num(a) and _is_num(b))):
         if {sa_, sb_} <= {"+", "0"}:
@@ -539,6 +541,10 @@ class Interp:
             if bt is None or it is None or bt.startswith("#"):
                 return None
             return f"{bt}[{it}]"
+        if isinstance(e, ast.BinOp):
+            v = self.eval(e, p, record=False)
+            if isinstance(v, Const):
+                return _const_term(v.v)
         if isinstance(e, ast.BinOp) and isinstance(e.op, (ast.Add, ast.Sub)):
             # t + c / t - c with constant c: used for "n_seasons - 1"
             lt, rt = self.term(e.left, p), self.term(e.right, p)
